@@ -136,6 +136,24 @@ def random_history(rng, maxlen):
     return h
 
 
+def many_keys_history(rng):
+    """13..32 distinct keys of lengths 1..3 inserted in random order, then sorted with a comparison that ties many of
+    them (by length / never less): a stable sort keeps tied keys in first-insertion order, and library sorts switch
+    algorithm above a dozen elements"""
+    pool = [c for c in "abcdefghijklmnop"] + [c + c for c in "abcdefghijkl"] + [c * 3 for c in "abcdefgh"]
+    keys = rng.sample(pool, rng.randint(13, 32))
+    h = [{"op": "set", "r": 0, "k": k, "v": i} for i, k in enumerate(keys)]
+    if rng.random() < 0.4:
+        h.append({"op": "remove", "r": 0, "k": rng.choice(keys)})
+        h.append({"op": "set", "r": 0, "k": rng.choice(keys), "v": 99})
+    h.append({"op": "sort", "r": 0, "f": rng.choice(["LLen", "LLen", "LNever", "LDesc"])})
+    h.append({"op": "iterate", "r": 0})
+    if rng.random() < 0.5:
+        h.append({"op": "sort", "r": 0, "f": rng.choice(["LLen", "LNever", "LAsc"])})
+        h.append({"op": "marshal", "r": 0})
+    return h
+
+
 PREAMBLE = "From Cog Require Import Model.OMap.\nImport ListNotations.\nLocal Open Scope string_scope.\n"
 
 
@@ -203,6 +221,8 @@ def run(ctx, verdict, replay=None, model_ok=True):
         n_exh = len(hists) - n_corpus
         for _ in range(6000 if thorough else 500):
             hists.append(random_history(rng, 40 if thorough else 14))
+        for _ in range(300 if thorough else 25):
+            hists.append(many_keys_history(rng))
     ctx.log("histories:", len(hists))
     binp = core.build_harness(ctx)
     ctx.log("harness built")
